@@ -94,6 +94,7 @@ func buildPlan(env *runner.Env) {
 		{"stream", pick(800, 10000)},
 		{"sei-ffsize", seiFFSizeCount()},
 		{"mp4-tool", mp4ToolCount(th)},
+		{"tool-many-nalus", manyNalusCount()},
 	}
 	if only := os.Getenv("C16_ONLY"); only != "" {
 		// development aid (mutant validation of one generator): C16_ONLY=mp4-tool,sei-ffsize keeps only these plan entries
@@ -153,8 +154,13 @@ func init() {
 			"21 configuration-record classes: valid; no configuration box; zero SPS; zero SPS and zero PPS / no arrays; zero PPS / VPS only; no VPS / empty PPS; counts of 0 with the sets still following / arrays announcing 0 NAL units; counts beyond the data; 16-bit lengths beyond the data; lengths shorter than the unit; parameter sets of length 0; header-only sets; cut sets; mutated / forced-ue sets; hand-built HRD SPS; wrong NAL type in a slot, array types 0/63; 31 SPS / 255 PPS / duplicated arrays / 40 units per array; lengthSizeMinusOne 0..2; configurationVersion and trailer variants; record cut after k bytes; byte-mutated record. " +
 			"12 sample classes: valid; a zero 4-byte length field first / in the middle / last / alone / three in a row; header-only NAL units of every type (1 byte, hevc 1..2 bytes); hostile length fields (the lenprefix generator); samples of 0..7 bytes; mutated units; hostile SEI units (payload shorter than the fixed header, size beyond the data, ff-run sizes); mutated / HRD in-band parameter sets followed by SEI and a slice; const units; an empty sample; a cut sample; samples of the other codec. " +
 			"Systematic part: codec x frame x (every record class with valid samples + every sample class with a valid record + every sample class with a record without parameter sets or without configuration box, where the tools look for the parameter sets in the samples), then random combinations (quick 900, thorough 12 000). " +
+			"Table part (round 5): behind the record/sample classes, valid samples with exactly one hostile sample-table / fragment-table field, written by a box-wise editor on top of every frame (mp4tbl.go: an edit that changes a box length adjusts all ancestor sizes and moves every chunk offset / trun data_offset that points behind the edit, so the container still decodes and only the one field is wrong; the structural step alone - stco rewritten as co64, ctts or stss removed, tfhd with base_data_offset = moof start - is a control class that both tools must accept). " +
+			"72 classes: first chunk offset = 0 / before the mdat payload / last byte of mdat / end of mdat / beyond the file / 2^32-1.. / co64 with 2^63, 2^64-1, 2^32..; stsz entry of the first, second or last sample = 0 / 1 / one more than the mdat holds / 2^32-1..; stsz without table and a huge uniform size; more samples than the mdat or the time tables cover; stts one short; stts / ctts / stsc / stco with zero entries; stsc samples_per_chunk 0 / 1 / 2^32-1, first_chunk 0 / 2 / 2^32-1; " +
+			"one box missing (stco stsz stsc stts mdat hdlr stsd stbl minf mdia tkhd moov; in the moov of a fragmented file also mvex trex; in the moof tfhd tfdt trun mfhd traf, the mdat of the fragment); mdat cut shorter than the tables say; trex / tfhd for another track; trun data_offset = moof start / before the mdat / last byte / end / beyond the file / 2^31-1 / negative; trun sample_size 0 / 1 / beyond the mdat / 2^32-1; more trun samples than the mdat holds; sizes from tfhd default_sample_size beyond the mdat; tfhd base_data_offset 0 / file length / 2^63 / 2^64-1. " +
+			"Systematic: class x value variant x applicable frame x codec with a record without parameter sets (so that mp4ff-pslister too goes to the samples), then a quarter of the random part with any record. " +
 			"Each file goes to mp4ff-nallister (no options; -c codec -sei 1 -ps; -c codec -sei 2 -raw 8 -m 1; segments without moov also -c <other codec> -sei 1) and mp4ff-pslister (-c codec -i f; -c codec -v -i f); its first two samples and the record also go through the library operations. A file with valid samples and a valid record must be accepted by both tools (checked in Finalize; mp4ff-pslister cannot read a segment without moov)). " +
-			"2 % of the cases of the other generators (chain-ue: one variant of every 10th position) also go through the mp4ff-nallister and mp4ff-pslister binaries as Annex B streams / hex arguments. Tool verdicts: exit status 2 or a Go crash dump on stderr -> tool/<tool>/<main function>/<class> (the library key when the top frame is library code); more than 6 s CPU -> tool/<tool>/hang/cpu; resident set above 512 MiB + 1024*len(file) -> tool/<tool>/alloc/rss. " +
+			"tool-many-nalus (54 cases: 256 / 4096 / as many as fit into 64 KiB one- and two-byte NAL units of six kinds as an Annex B stream, as one sample of a progressive and of a fragmented mp4 file: what the tools do per NAL unit of a sample must stay linear; the CPU time of every tool run is recorded as maxima.tool_max_cpu_ms). " +
+			"2 % of the cases of the other generators (chain-ue: one variant of every 10th position) also go through the mp4ff-nallister and mp4ff-pslister binaries as Annex B streams / hex arguments. Tool verdicts: exit status 2 or a Go crash dump on stderr -> tool/<tool>/<top main or mp4 function>/<class> (the library key es/<function>/<class> when the top frame is codec-package code); more than 6 s CPU -> tool/<tool>/hang/cpu; resident set above 512 MiB + 1024*len(file) -> tool/<tool>/alloc/rss. " +
 			"The library calls that build the plan in each worker (parsing the seeds' own parameter sets, selecting the slices a context accepts) run under a recover wrapper: a panic there is recorded with its input and reported by case 0 as a violation, the unit counts as rejected. The library calls run in a probe subprocess of each worker whose monitor goroutine watches the call in flight " +
 			"(bytes allocated since the call started, runtime/metrics /gc/heap/allocs:bytes, against 8 MiB + 1024*len; process CPU time against 2 s + 20 us*len, a CPU exceedance must be reproduced in a fresh probe; " +
 			"after a hang key is confirmed, calls found at 30 ms CPU inside the same function are aborted and counted as presumed repeats, not reported); the runner watchdog (6 s CPU per case, RLIMIT_AS 3 GiB) is the backstop. " +
@@ -163,7 +169,8 @@ func init() {
 			"external SEI parameters stay inside what a parsed SPS can produce (5-bit length fields 0..31)",
 			"allocation is measured as the cumulative heap allocation delta of the worker (GOMAXPROCS=2, nothing else running); small-object accounting lags by at most a few spans, far below the 8 MiB slack",
 			"the plan (which contexts and slices exist) depends on what the library accepts during setup; a hang or an allocation blow-up of the library on the well-formed setup inputs themselves would still end as a harness failure (only panics are recovered there)",
-			"mp4-tool: the container around the hostile bytes is well-formed (box sizes, sample tables and offsets consistent with what was written); hostile container fields are the subject of C04 and are not varied here. A sample entry without avcC/hvcC box and records with zero parameter sets count as configuration-record edge cases, not as container damage",
+			"mp4-tool: box sizes always tile the file (hostile box sizes and nesting are the subject of C04). Since round 5 the values by which the two tools find the elementary-stream bytes - chunk offsets, sample sizes and counts, stsc runs, time-table lengths, trex/tfhd/trun offsets and sizes, and the presence of each box on that path - are varied one at a time around valid samples: the tools are anchors of C16 and index / slice with these values themselves. A crash inside container code (mp4.*) that a tool reaches with such a value is reported under the tool's key. A sample entry without avcC/hvcC box and records with zero parameter sets count as configuration-record edge cases",
+			"a file that announces many samples is allowed to cost time proportional to that number: stsz without table with a huge sample_count and size 0 (4 billion empty samples in a 1 KiB file) is not generated",
 			"'memory bounded by a small multiple of the input length' is read as the fixed bound 8 MiB + 1024*len per library call (DESIGN.md C04/C16) and 512 MiB + 1024*len resident set per tool run; the 256x allocation of sei.ExtractSEIData for an ff-run size field is inside it and recorded as an observation (maxima.sei_extraction_*), the largest tool resident set as maxima.tool_max_rss_kib",
 		},
 		Setup: func(env *runner.Env) error {
@@ -236,6 +243,9 @@ func run(c *runner.Ctx, idx int) {
 		j = genSEIFFSize(sub)
 	case "mp4-tool":
 		runMP4Case(c, genMP4(c.Rand, sub))
+		return
+	case "tool-many-nalus":
+		runManyNalus(c, sub)
 		return
 	default:
 		c.Inconclusive("case index outside the plan")
@@ -352,20 +362,27 @@ func runMP4Case(c *runner.Ctx, mc *mp4Case) {
 	c.Seen("mp4_tool_config_class", mc.spec.cfgType()+" "+mc.cfgClass)
 	c.Seen("mp4_tool_sample_class", mc.spec.codec()+" "+mc.smpClass)
 	c.Seen("mp4_tool_file_len_class", lenClass(len(file)))
-	j := &job{}
-	for i, smp := range mc.spec.Samples {
-		if i < 2 && len(smp) <= 4096 {
-			j.items = append(j.items, item{In: smp, Mode: "all", Desc: fmt.Sprintf("%s -> sample %d handed to the library", mc.desc, i+1)})
+	if mc.tblClass != "none" {
+		// valid samples behind one hostile table field: only the tools see the difference
+		c.Seen("mp4_tool_table_class", mc.tblClass)
+		c.Seen("mp4_tool_table_class_by_frame", mc.spec.Frame+" "+mc.tblClass)
+		c.Count("mp4_tool_table_cases", 1)
+	} else {
+		j := &job{}
+		for i, smp := range mc.spec.Samples {
+			if i < 2 && len(smp) <= 4096 {
+				j.items = append(j.items, item{In: smp, Mode: "all", Desc: fmt.Sprintf("%s -> sample %d handed to the library", mc.desc, i+1)})
+			}
 		}
+		if !mc.spec.NoCfg {
+			j.items = append(j.items, item{In: mc.spec.Config, Mode: "all", Desc: mc.desc + " -> configuration record handed to the library"})
+		}
+		drive(c, j)
 	}
-	if !mc.spec.NoCfg {
-		j.items = append(j.items, item{In: mc.spec.Config, Mode: "all", Desc: mc.desc + " -> configuration record handed to the library"})
-	}
-	drive(c, j)
 	if c.WantSample() {
 		c.Sample(map[string]interface{}{"case": mc.desc, "file_len": len(file), "file_hex_head": head(hexs(file), 200)})
 	}
-	runMP4Tools(c, file, mc.spec.codec(), mc.desc, []string{mc.spec.Frame, mc.cfgClass, mc.smpClass})
+	runMP4Tools(c, file, mc.spec.codec(), mc.desc, []string{mc.spec.Frame, mc.cfgClass, mc.smpClass, mc.tblClass})
 }
 
 func finalize(a *runner.Agg) {
@@ -398,6 +415,15 @@ func finalize(a *runner.Agg) {
 		if n > 0 && !strings.HasSuffix(k, " exit 0") && !strings.HasPrefix(k, "mp4ff-pslister seg-only") {
 			a.Note("mp4-tool: a file with valid samples and a valid configuration record was not accepted: %s (%d runs)", k, n)
 		}
+	}
+	for k, n := range a.Seen["mp4_tool_exit_on_control_table_class"] {
+		// structural steps of the table editor alone (co64 with the right offsets, no ctts ...) leave a valid file
+		if n > 0 && !strings.HasSuffix(k, " exit 0") && !strings.HasPrefix(k, "mp4ff-pslister seg-only") {
+			a.Note("mp4-tool: a file whose tables were only restructured (control class) was not accepted: %s (%d runs)", k, n)
+		}
+	}
+	if a.Counters["tool_runs_on_mp4_files"] > 0 && len(a.Seen["mp4_tool_table_class"]) < len(tblClasses) {
+		a.Note("mp4-tool: only %d of %d table classes were applied", len(a.Seen["mp4_tool_table_class"]), len(tblClasses))
 	}
 	for k := range a.Seen["mp4_tool_frame"] {
 		if strings.HasSuffix(k, "(fallback)") {
